@@ -563,6 +563,47 @@ def check_reregistered_individuals(h: Harness, tmp: str):
                 break
 
 
+def check_short_lived_individuals(h: Harness, tmp: str):
+    """a search discards most individuals soon after they are registered, and the memory of a dead individual is handed to a later
+    one: with the default columns, every row still shows the program of the individual registered THERE"""
+    import csv as csvmod
+    import gc
+    rng = h.rng
+    for trial in range(h.n(4, 30)):
+        k = rng.randint(1, 3)
+        problem = MultiObjectiveProblem([False] * k, lambda p: [float(c) for c in p.fit])
+        path = os.path.join(tmp, f"shortlived{trial}.csv")
+        recorder = CSVSearchRecorder(path, problem, only_record_best_individuals=False)
+        tracker = MultiObjectiveProgressTracker(problem, recorders=[recorder])
+        n = rng.randint(40, 90)
+        pids = [rng.randrange(10 ** 6) for _ in range(n)]
+        desc = f"CSV log with the default columns under the real tracker, {n} individuals each registered once and dropped at once"
+        try:
+            for i, pid in enumerate(pids):
+                tracker.evaluate([make_ind(i, pid, [rng.randint(0, 9) for _ in range(k)])])
+                if i % 7 == 0:
+                    gc.collect()
+            recorder.csv_file.flush()
+        except Exception as e:  # noqa: BLE001
+            h.fail("CSVSearchRecorder.register", "raises", f"{desc}: {type(e).__name__}: {e}", [trial])
+            continue
+        finally:
+            recorder.csv_file.close()
+        with open(path, newline="") as f:
+            rows = list(csvmod.reader(f))
+        h.count("short-lived-individuals")
+        h.seen(f"shortlived:{trial}:{n}:{k}", nontrivial=True)
+        if len(rows) != n + 1 or "Phenotype" not in rows[0]:
+            h.fail("CSVSearchRecorder.register", "column-not-faithful", f"{desc}: {len(rows) - 1} rows, header {rows[:1]}", [trial])
+            continue
+        c = rows[0].index("Phenotype")
+        for i, (r, pid) in enumerate(zip(rows[1:], pids)):
+            if r[c] != prog_text(pid):
+                h.fail("CSVSearchRecorder.register", "column-not-faithful",
+                       f"{desc}: row {i} belongs to the program {prog_text(pid)!r}, its Phenotype column shows {r[c]!r}", [trial, i])
+                break
+
+
 def check_extreme_first(h: Harness, tmp: str):
     """the first registered individual is a new best whatever its fitness is -- also the worst value there is (inf when
     minimising, -inf when maximising) or NaN: its row opens the best-only log.  For the infinities the later flags are
@@ -660,6 +701,7 @@ def run(h: Harness):
         check_tiny_improvements(h, tmp)
         check_second_search_same_log(h, tmp)
         check_reregistered_individuals(h, tmp)
+        check_short_lived_individuals(h, tmp)
         n = 0
         for case in CORPUS:
             run_case(h, case, tmp, n)
